@@ -276,6 +276,133 @@ func one(id int, p pair, dir string) (o obs) {
 	return
 }
 
+// oneInline: up / down where the desired state is what Atlas inspects from a database created with inline UNIQUE constraints (its
+// indexes carry the engine's sqlite_autoindex_<table>_<n> names, as with an SQL schema file or another database as the desired state).
+// Only the round trip is judged: `to` is reported as the state the plan actually produced.
+func oneInline(id int, p pair, dir string) (o obs, applicable bool) {
+	o = obs{ID: id, From: sq.Canon(p.From), To: sq.Canon(p.From), After: sq.State{}, Undone: sq.State{}, Before: map[string][]row{}, Rows: map[string][]row{}}
+	stmts, inl := ddlVariant(p.To, "inline")
+	if !inl {
+		return o, false
+	}
+	defer func() {
+		if r := recover(); r != nil {
+			o.Err = fmt.Sprint("panic: ", r)
+		}
+	}()
+	ctx := context.Background()
+	dpath := filepath.Join(dir, fmt.Sprintf("i%dd.db", id))
+	defer os.Remove(dpath)
+	ddb, err := sql.Open("sqlite3", "file:"+dpath+"?_fk=1")
+	if err != nil {
+		o.Skipped = err.Error()
+		return o, true
+	}
+	defer ddb.Close()
+	for _, s := range stmts {
+		if _, err := ddb.Exec(s); err != nil {
+			o.Skipped = "engine rejects the desired state: " + s + ": " + err.Error()
+			return o, true
+		}
+	}
+	ddrv, err := sqlite.Open(ddb)
+	if err != nil {
+		o.Skipped = err.Error()
+		return o, true
+	}
+	desired, err := ddrv.InspectSchema(ctx, "main", nil)
+	if err != nil {
+		o.Skipped = "inspect desired: " + err.Error()
+		return o, true
+	}
+	path := filepath.Join(dir, fmt.Sprintf("i%d.db", id))
+	defer os.Remove(path)
+	db, err := sql.Open("sqlite3", "file:"+path+"?_fk=1")
+	if err != nil {
+		o.Skipped = err.Error()
+		return o, true
+	}
+	defer db.Close()
+	db.SetMaxOpenConns(1)
+	for _, s := range sq.DDL(p.From) {
+		if _, err := db.Exec(s); err != nil {
+			o.Skipped = "engine rejects the start state: " + err.Error()
+			return o, true
+		}
+	}
+	if o.Before, err = readRows(db, p.From); err != nil {
+		o.Skipped = "rows: " + err.Error()
+		return o, true
+	}
+	o.Rows = o.Before
+	drv, err := sqlite.Open(db)
+	if err != nil {
+		o.Err = "open: " + err.Error()
+		return o, true
+	}
+	cur, err := drv.InspectSchema(ctx, "main", nil)
+	if err != nil {
+		o.Err = "inspect: " + err.Error()
+		return o, true
+	}
+	changes, err := drv.SchemaDiff(cur, desired, schema.DiffNormalized())
+	if err != nil {
+		o.Err = "diff: " + err.Error()
+		return o, true
+	}
+	if len(changes) == 0 {
+		return o, false
+	}
+	plan, err := drv.PlanChanges(ctx, "plan", changes)
+	if err != nil {
+		o.Err = "plan: " + err.Error()
+		return o, true
+	}
+	for _, c := range plan.Changes {
+		o.Stmts = append(o.Stmts, c.Cmd)
+		if _, err := db.ExecContext(ctx, c.Cmd, c.Args...); err != nil {
+			o.Err = "exec: " + c.Cmd + ": " + err.Error()
+			return o, true
+		}
+	}
+	o.Reversible = plan.Reversible
+	after, err := sq.Project(db)
+	if err != nil {
+		o.Err = "projection after: " + err.Error()
+		return o, true
+	}
+	o.After = sq.Canon(after)
+	o.To = o.After
+	if o.Rows, err = readRows(db, o.After); err != nil {
+		o.Err = "rows after: " + err.Error()
+		return o, true
+	}
+	if plan.Reversible {
+		for i := len(plan.Changes) - 1; i >= 0 && o.DownErr == ""; i-- {
+			rs, err := plan.Changes[i].ReverseStmts()
+			if err != nil {
+				o.DownErr = "reverse: " + err.Error()
+				break
+			}
+			for _, s := range rs {
+				o.Down = append(o.Down, s)
+				if _, err := db.ExecContext(ctx, s); err != nil {
+					o.DownErr = "exec down: " + s + ": " + err.Error()
+					break
+				}
+			}
+		}
+		if o.DownErr == "" {
+			if u, err := sq.Project(db); err == nil {
+				o.Undone = sq.Canon(u)
+			} else {
+				o.DownErr = "projection: " + err.Error()
+			}
+		}
+	}
+	return o, true
+}
+
 // oneCLI repeats the flow of one() through the real CLI binary (VERIF_ATLAS): the desired state is created on a second database,
 // exported with `schema inspect` (HCL) and applied to the populated current database with `schema apply --auto-approve`; the diff
 // afterwards comes from `schema diff`. Projection and rows are read by the harness, as in one().
@@ -468,6 +595,45 @@ func main() {
 		cwf.Flush()
 		cff.Close()
 	}
+	// up / down with an inspected inline-UNIQUE database as the desired state (every 3rd applicable pair), appended to the observations
+	ninl := 0
+	{
+		var idx []int
+		for i := range pairs {
+			if i%3 == 0 {
+				idx = append(idx, i)
+			}
+		}
+		type ires struct {
+			o  obs
+			ok bool
+		}
+		ir := make([]ires, len(idx))
+		ch3 := make(chan int)
+		var wg3 sync.WaitGroup
+		for w := 0; w < workers; w++ {
+			wg3.Add(1)
+			go func() {
+				defer wg3.Done()
+				for k := range ch3 {
+					o, ok := oneInline(1000000+k, pairs[idx[k]], dir)
+					ir[k] = ires{o, ok}
+				}
+			}()
+		}
+		for k := range idx {
+			ch3 <- k
+		}
+		close(ch3)
+		wg3.Wait()
+		for _, r := range ir {
+			if r.ok {
+				r.o.ID = len(res) + 1
+				res = append(res, r.o)
+				ninl++
+			}
+		}
+	}
 	of, _ := os.Create(os.Args[2])
 	w := bufio.NewWriterSize(of, 1<<20)
 	ff, _ := os.Create(os.Args[2] + ".full")
@@ -496,5 +662,5 @@ func main() {
 	of.Close()
 	wf.Flush()
 	ff.Close()
-	json.NewEncoder(os.Stdout).Encode(map[string]any{"pairs": len(pairs), "skipped": nskip, "skip_reasons": skipped})
+	json.NewEncoder(os.Stdout).Encode(map[string]any{"pairs": len(pairs), "skipped": nskip, "skip_reasons": skipped, "inline_desired_updown": ninl})
 }
